@@ -188,3 +188,17 @@ Section NN.
 End NN.
 
 Definition prodZ (l : list Z) : Z := fold_right Z.mul 1%Z l.
+
+(* ------------------------------------------------------------------------------------------ *)
+(* _spatial_mp.Cartesian.transform_lonlats for one location, generic arithmetic; cos / sin are ORACLES
+   (numexpr / libm):  "R*cos(lats*deg2rad)*cos(lons*deg2rad)", "R*cos(lats*deg2rad)*sin(lons*deg2rad)",
+   "R*sin(lats*deg2rad)"  (left-associated products, deg2rad = np.pi / 180 as a binary64 constant) *)
+Section Cartesian.
+  Context {T : Type} (OP : ops T).
+  Variables (cosf sinf : T -> T).
+  Variables (Rearth deg2rad : T).
+  Definition transform_lonlat (lon lat : T) : T * T * T :=
+    let la := mul OP lat deg2rad in
+    let lo := mul OP lon deg2rad in
+    (mul OP (mul OP Rearth (cosf la)) (cosf lo), mul OP (mul OP Rearth (cosf la)) (sinf lo), mul OP Rearth (sinf la)).
+End Cartesian.
